@@ -27,6 +27,32 @@ PROPS = {
                 "monotone, +1 per duration, now in [start(id), start(id+1)), duration>=1 day and genesis>=now enforced; "
                 "u64/Timestamp overflow is an error, never a wrapped value",
     },
+    "C09": {
+        "module": "MantraDex.Properties.C09",
+        "ns": "MantraDex.C09",
+        "theorems": [
+            "cap_is_90pct", "penalty_le_cap", "penalty_formula", "penalty_antitone_in_time",
+            "penalty_zero_when_unlocked", "penalty_open_full_duration", "penaltySplit_ok",
+            "penalty_le_90pct", "split_accounted", "split_all_to_collector_when_no_active_farm",
+            "split_all_to_collector_when_share_rounds_to_zero", "owner_share_is_half",
+        ],
+        "streams": {"farmmath": (6000, 300000)},
+        "what": "emergency penalty rate = min(90%, base (x) remaining/duration (x) weight/amount) with 18-digit floors; <= 90% (from the "
+                "generated MAX_PENALTY_CAP); antitone in time after closing; zero once unlocked; fee = floor(amount*rate) < amount and <= 90%; "
+                "owner payout + fee collector + n*per-owner share <= recorded amount, = amount - dust with dust < n; all to the fee collector "
+                "when there is no active farm or the per-owner share rounds to zero",
+    },
+    "C10": {
+        "module": "MantraDex.Properties.C10",
+        "ns": "MantraDex.C10",
+        "theorems": [
+            "weightMultiplier_eq", "mulOf_mono", "mulOf_year_le_16", "calculateWeight_ok", "weight_ge_amount",
+            "weight_le_16x", "weight_mono_amount", "weight_mono_duration", "weight_superadditive", "curve_anchor_points",
+        ],
+        "streams": {"farmmath": (6000, 300000)},
+        "what": "weight curve: weight >= amount, <= 16*amount (multiplier at one year evaluated from the generated coefficients), "
+                "monotone in amount and duration, super-additive in amount (source of F-07)",
+    },
 }
 
 HOOK_COMMITS = ["4dbfdab", "9c77502"]
